@@ -287,4 +287,76 @@ def workflow_leg(ctx):
                                   f"had to run again but only {ran} ran")
             last_chain = chain
         seams.remove_db(db)
+    n += forkjoin_leg(ctx)
+    return n
+
+
+def forkjoin_leg(ctx):
+    """A task that takes TWO states of one handle (two fork branches) and returns the first: when it is edited, every state derived from
+    either argument has to be invalidated. Body histories of (left, join) as above."""
+    import itertools
+
+    from redun import task
+
+    import wf.tasks as T
+    from engine import crash, seams
+
+    calls = []
+
+    def define(bodies):
+        reg = {}
+
+        def left(h):
+            calls.append("left")
+            return h
+
+        def right(h):
+            calls.append("right")
+            return h
+
+        def join(a, b):
+            calls.append("join")
+            return a
+
+        def finish(h):
+            calls.append("finish")
+            return h
+
+        def pipeline2():
+            h = T.H("conn2")
+            return reg["finish"](reg["join"](reg["left"](h), reg["right"](h)))
+
+        reg["left"] = task(name="left", namespace="c25f", source=f"left body {bodies[0]}")(left)
+        reg["right"] = task(name="right", namespace="c25f", source="right")(right)
+        reg["join"] = task(name="join", namespace="c25f", source=f"join body {bodies[1]}")(join)
+        reg["finish"] = task(name="finish", namespace="c25f", source="finish")(finish)
+        reg["pipeline2"] = task(name="pipeline2", namespace="c25f", source="pipeline2")(pipeline2)
+        return reg
+
+    n = 0
+    body_states = list(itertools.product([0, 1], [0, 1]))
+    L = ctx.pick(3, 4)
+    for hist in itertools.product(body_states, repeat=L):
+        db = seams.fresh_db_path("c25fj")
+        last = None
+        for i, bodies in enumerate(hist):
+            reg = define(bodies)
+            calls.clear()
+            crash.run_workload(lambda env: [env.run(reg["pipeline2"]())], db, id_salt=i)
+            ran = list(calls)
+            n += 1
+            must = []
+            if last is None:
+                must = ["left", "right", "join", "finish"]
+            elif bodies[0] != last[0]:
+                must = ["left", "join", "finish"]
+            elif bodies[1] != last[1]:
+                must = ["join", "finish"]
+            for t in must:
+                if t not in ran:
+                    ctx.violation(f"workflow:forkjoin:stale-handle-replayed:{t}", {"history": repr(hist[: i + 1])},
+                                  f"fork/join bodies history (left, join) {hist[: i + 1]}: the external state was last written by bodies {last}; task {t} "
+                                  f"had to run again but only {ran} ran")
+            last = tuple(bodies)
+        seams.remove_db(db)
     return n
